@@ -1,6 +1,7 @@
 """C13 Broker state loss is recoverable by epoch recovery (store level).
 Proof: coq/Props/C13.v over Model/Broker.v (recover_epoch, step, run, view_proxy); proofs in coq/Proofs/BrokerEpochMain.v on top
-of the C04 development.  Correspondence and monitors: checks/broker_common.py + harness/broker."""
+of the C04 development; service layer / restart from the meta file: coq/Proofs/BrokerSvc.v.
+Correspondence and monitors: checks/broker_common.py + harness/broker + harness/brokersvc (real HTTP service, meta file, restart)."""
 import broker_common as bc
 
 MANIFEST = {
@@ -14,12 +15,22 @@ MANIFEST = {
           'every served epoch is >= e and > the previous global epoch. The service composition is executed too: `svcrecover m` restarts a real MemBrokerService from the '
           'current store as its snapshot (MemBrokerService::new restores it), runs hook H4 recover_epoch_with_max(m) (the production statement '
           'self.storage.recover_epoch(max_epoch + 1) without the TCP fetch) and reads the store back; the model runs recover_epoch (m+2); the monitor demands every '
-          'served epoch and the global epoch to be > m. The production body is pinned textually.',
+          'served epoch and the global epoch to be > m. The production body is pinned textually. '
+          'SERVICE LAYER / restart from the meta file (coq/Proofs/BrokerSvc.v over (memory, meta file) pairs): C13_service_restart_is_file (the restart the code performs - '
+          'MetaStore::new(ordered).restore(loaded file) - is always accepted and yields exactly the file), C13_service_restarts_are_identity (+ _init: under the contract '
+          '"file := memory after every call" restarts inserted ANYWHERE in a history change nothing: final memory = run of the history without the restarts, file = memory), '
+          'C13_service_handlers_meet_contract (the handlers as written - handler_persists mirrors which handler reaches trigger_update() for which reply - equal the contract '
+          'on every call that is persisted or leaves the store unchanged) and C13_service_stale_witness (that premise is needed on the unchanged tree: refused migrate_slots). '
+          'Tied to the code by harness/brokersvc (real run_server + MemBrokerService + JsonFileStorage, op svcrestart; see C18 text): after every request file = memory, after '
+          'every restart store = store before, model = service with the restarts removed.',
   'note': 'Trusted: Coq kernel (closed under the global context), extraction + OCaml driver, harness/broker, hook H1. '
           'PARTIAL: fetch_max_epoch over TCP, '
           'unreachable proxies holding larger epochs, proxies registered after the snapshot (not polled) and u64 overflow of max_epoch + 2 are outside the model - '
           'the hypothesis "m is the largest epoch held by any proxy" is exactly what those would break. Re-convergence of the proxies (C13_reconverge of the design) '
-          'belongs to the control-plane model and is not part of these theorems.',
+          'belongs to the control-plane model and is not part of these theorems. '
+          'Service layer: trusted harness/brokersvc; known class refused-migration-call-burns-global-epoch (file one global epoch behind after a refused migrate / scale-down; '
+          'a restart then takes the global epoch, i.e. the epoch served to free proxies, back by one) and the non-persisted calls auto-scale-refused, PUT /epoch/recovery, '
+          'GET /failures pruning are replayed as observations on every run and are outside the gating histories (proposed repair: work/fix_service_persist.diff).',
   'technique': 'Coq proof over a hand-written model + differential correspondence check against the real code',
 }
 
@@ -49,6 +60,14 @@ def run(chk):
     if st is not None:
         for p in pins():
             chk.violation({'kind': 'correspondence', 'correspondence': 'production recover_epoch body vs hook H4 / Coq recover_service', 'detail': p}, no_input=True)
+        # re-convergence of the REAL proxies after a state loss that changed cluster membership: scenarios of the ctrl group (checks/C07.py,
+        # harness/ctrl: real coordinator rounds + real MetaStore + real proxies), model side = Props/C07.v C13_reconverge(_broker)
+        import C07
+        C07.run_membership_recovery(chk)
 
 
-def replay(data): return bc.replay('C13', data)
+def replay(data):
+    if data.get('harness') == 'ctrl':
+        import C07
+        return C07.replay(data)
+    return bc.replay('C13', data)
